@@ -32,6 +32,9 @@ demo_ok = r_patched.returncode != 0 and r_clean.returncode == 0
 tests = None
 if skip_tests and os.path.exists(os.path.join(out, "meta.json")):
     tests = json.load(open(os.path.join(out, "meta.json"))).get("baseline_tests_on_patched_tree")
+if skip_tests and tests is None and os.path.exists(os.path.join(seed, "baseline_patched.txt")):
+    # produced beforehand by `tools/baseline.py <worktree> > <worktree>/_seed/baseline_patched.txt` on the patched worktree
+    tests = open(os.path.join(seed, "baseline_patched.txt")).read().strip().splitlines()[0]
 if not skip_tests:
     t = run(["/venv/bin/python", os.path.join(VERIF, "tools", "baseline.py"), wt], env=env)
     tests = t.stdout.strip().splitlines()[0] if t.stdout.strip() else t.stderr[-200:]
